@@ -33,12 +33,12 @@ Definition zero_row (r : list gz) : Prop := forall k, nth k r gz0 = gz0.
 Lemma nth_drop_nth {A} (d : A) j : forall (l : list A) k,
   nth k (drop_nth j l) d = if Nat.ltb k j then nth k l d else nth (S k) l d.
 Proof.
-  induction j as [|j IH]; intros [|x l] k; cbn [drop_nth].
-  - destruct k; reflexivity.
-  - reflexivity.
-  - destruct k; reflexivity.
-  - destruct k as [|k]; [reflexivity|]. cbn [nth]. rewrite IH.
-    change (S k <? S j) with (k <? j). reflexivity.
+  induction j as [|j IH]; intros l k.
+  - destruct l as [|x l]; cbn [drop_nth]; [destruct k; reflexivity|reflexivity].
+  - destruct l as [|x l]; cbn [drop_nth].
+    + destruct (k <? S j); destruct k; reflexivity.
+    + destruct k as [|k]; [reflexivity|]. cbn [nth]. rewrite IH.
+      change (S k <? S j) with (k <? j). reflexivity.
 Qed.
 
 Lemma zero_row_drop j r : zero_row r -> zero_row (drop_nth j r).
